@@ -124,6 +124,26 @@ def _c04_mc(prop, tier, res):
         res.add_mc(require_mc(tlc_mc("CountSearch", "CountSearch_n3s_TRUE.cfg", workers=12, timeout=1800)))
 
 
+def _c04_conformance(res, binary, tier):
+    """step-level conformance of CountSearch with the real recursion through the visit tracer (hook H3b): drift only"""
+    prefix = os.path.join(WORK, "search_C04")
+    run_harness(binary, ["search", "--tier", tier, "--out-prefix", prefix])
+    same, drift = 0, []
+    for n in (2, 3):
+        tr = tlc_trace("Trace_CountSearch", "%s_count_n%d.ndjson" % (prefix, n), cfg="Trace_CountSearch_n%d.cfg" % n, shards=6)
+        res.states += tr["states"]
+        res.transitions += tr["transitions"]
+        for gl, t in tr["tuples"]:
+            if t and t[0] == "SAME":
+                same += 1
+            elif t and t[0] == "DRIFT":
+                drift.append({"run": t[2]})
+    res.extra["step_level_conformance"] = {"traced_runs_of_two_val_model_counts_logic": same + len(drift), "same_recursion_entries": same, "drifted": drift[:20],
+                                           "meaning": "every entry (interpretation, will_be, depth) of the real recursion is produced, in the same pre-order, by CountSearch!Visits"}
+    res.drift += drift
+    log("CountSearch step-level conformance: %d traced runs, %d drifted" % (same + len(drift), len(drift)))
+
+
 @register("C04")
 def check_c04(prop, tier, replay, selftest):
     if selftest:
@@ -133,7 +153,11 @@ def check_c04(prop, tier, replay, selftest):
         print("SELFTEST C04 model: unrepaired transcription %s the lost-model defect" % ("rediscovers" if ok else "DOES NOT rediscover"))
         if not ok:
             return 2
-    return check_sem(prop, tier, replay, selftest, mc=_c04_mc)
+    def mc(prop, tier, res):
+        _c04_mc(prop, tier, res)
+        if not replay and not selftest:
+            _c04_conformance(res, os.path.join(HARNESS, "target", "debug", "adfv"), tier)
+    return check_sem(prop, tier, replay, selftest, mc=mc)
 
 
 def _c05_mc(prop, tier, res):
